@@ -286,6 +286,11 @@ def gen_case(rng, tier, weights=None, maxlen=None):
     return case
 
 
+def _reco(rng, ok):
+    # the application re-establishes the connection with reconnect() - or, now and then, by calling connect() again
+    return ("connect " if rng.random() < 0.2 else "reconnect ") + ("ok" if ok else "refuse")
+
+
 def _after_connect(sh, ok):
     sh.hosted = True
     sh.sock = ok
@@ -332,7 +337,9 @@ def _next_op(rng, sh):
         # keep-alive pattern: idle for exactly K (PINGREQ due), then K again (timeout due) with loop_misc in between
         k = sh.cfg["ka"] * 1000
         d = rng.choice([0, 0, 500, k // 2])
-        sh.pending = ["loop_misc", f"tick {k - d if rng.random() < 0.3 else k}", "loop_misc"] + (["rx pingresp"] if rng.random() < 0.4 else []) + \
+        # (sometimes the transport fails or stalls exactly when the PINGREQ is written)
+        pre = [rng.choice(["send e", "send e", "send b", "send a1"])] if rng.random() < 0.25 else []
+        sh.pending = pre + ["loop_misc", f"tick {k - d if rng.random() < 0.3 else k}", "loop_misc"] + (["rx pingresp"] if rng.random() < 0.4 else []) + \
                      [f"tick {k}", "loop_misc", "loop_misc"]
         if rng.random() < 0.5:
             # ... and a fresh connection right after (a PINGREQ may have been outstanding on the old one)
@@ -345,7 +352,7 @@ def _next_op(rng, sh):
         if r < 0.45:
             ok = rng.random() < 0.85
             _after_connect(sh, ok)
-            return "reconnect " + ("ok" if ok else "refuse") if sh.hosted else "connect ok"
+            return _reco(rng, ok) if sh.hosted else "connect ok"
         if r < 0.6:
             return _publish(rng, sh)
         if r < 0.65:
@@ -360,7 +367,7 @@ def _next_op(rng, sh):
             return f"tick {rng.choice([500, 1000, 5000])}"
         ok = rng.random() < 0.9
         _after_connect(sh, ok)
-        return "reconnect " + ("ok" if ok else "refuse")
+        return _reco(rng, ok)
     if not sh.connected:
         if r < 0.04:
             return "disconnect"         # disconnect() before the CONNACK is processed
@@ -374,7 +381,7 @@ def _next_op(rng, sh):
         if r < 0.85:
             ok = rng.random() < 0.85
             _after_connect(sh, ok)
-            return "reconnect " + ("ok" if ok else "refuse")
+            return _reco(rng, ok)
         if r < 0.9:
             return f"tick {rng.choice([1000, 10000, 60000])}"
         return "loop_misc"
@@ -452,7 +459,7 @@ def _next_op(rng, sh):
     if r < 0.72:
         ok = rng.random() < 0.88
         _after_connect(sh, ok)
-        return "reconnect " + ("ok" if ok else "refuse")
+        return _reco(rng, ok)
     if r < 0.76:
         sh.sock = False
         sh.connected = False
